@@ -34,17 +34,18 @@ type verifEvent struct {
 }
 
 type verifClientResult struct {
-	C        int    `json:"c"`
-	Tok      string `json:"tok"`
-	Status   int    `json:"status"`
-	RespHdr  string `json:"resp_hdr"`
-	BodyOK   bool   `json:"body_ok"`
-	BodyTok  string `json:"body_tok"`
-	Trailer  string `json:"trailer"`
-	Err      string `json:"err,omitempty"`
-	Canceled bool   `json:"canceled,omitempty"`
-	BodyLen  int    `json:"body_len"`
-	WantLen  int    `json:"want_len"` // -1: not determined by the plan (a second post with another size may win)
+	C        int      `json:"c"`
+	Tok      string   `json:"tok"`
+	Status   int      `json:"status"`
+	RespHdr  string   `json:"resp_hdr"`
+	BodyOK   bool     `json:"body_ok"`
+	BodyTok  string   `json:"body_tok"`
+	Trailer  string   `json:"trailer"`
+	Err      string   `json:"err,omitempty"`
+	Canceled bool     `json:"canceled,omitempty"`
+	BodyLen  int      `json:"body_len"`
+	Multi    []string `json:"multi"`    // values of the repeated response fields X-Verif-Multi and Set-Cookie, in order
+	WantLen  int      `json:"want_len"` // -1: not determined by the plan (a second post with another size may win)
 }
 
 func verifBody(tok string, n int) []byte {
@@ -267,7 +268,8 @@ func verifRunSchedule(out *verifOut, si, n, npollers int, rng *verifRng, sizes [
 		body := verifBody(respTok, size)
 		var wire bytes.Buffer
 		var cuts []int // tailLate: where the upload pauses
-		fmt.Fprintf(&wire, "HTTP/1.1 200 OK\r\nX-Verif-Resp: %s\r\nTrailer: X-Verif-Trailer\r\nTransfer-Encoding: chunked\r\n\r\n", respTok)
+		// (a field that occurs on several lines: every line is part of the response)
+		fmt.Fprintf(&wire, "HTTP/1.1 200 OK\r\nX-Verif-Resp: %s\r\nX-Verif-Multi: first-%s\r\nSet-Cookie: a=%s\r\nX-Verif-Multi: second-%s\r\nSet-Cookie: b=%s\r\nTrailer: X-Verif-Trailer\r\nTransfer-Encoding: chunked\r\n\r\n", respTok, respTok, respTok, respTok, respTok)
 		for off := 0; off < len(body); {
 			l := 1 + (len(body)-off)/2
 			if l > 20000 {
@@ -371,7 +373,7 @@ func verifRunSchedule(out *verifOut, si, n, npollers int, rng *verifRng, sizes [
 					nonce++
 					nn := nonce
 					nonceMu.Unlock()
-					post(id, fmt.Sprintf("R|%s|%d", tok, nn), size, 5*time.Second, tailLate)
+					post(id, fmt.Sprintf("R|%s|%d", tok, nn), size, 90*time.Second, tailLate)
 					if dup {
 						nonceMu.Lock()
 						nonce++
@@ -405,7 +407,7 @@ func verifRunSchedule(out *verifOut, si, n, npollers int, rng *verifRng, sizes [
 			tr := &http.Transport{}
 			defer tr.CloseIdleConnections()
 			cl := &http.Client{Transport: tr}
-			cto := 40 * time.Second
+			cto := 120 * time.Second
 			if n > 100 {
 				cto = 12 * time.Second
 			}
@@ -446,6 +448,7 @@ func verifRunSchedule(out *verifOut, si, n, npollers int, rng *verifRng, sizes [
 			}
 			res.Status = resp.StatusCode
 			res.RespHdr = resp.Header.Get("X-Verif-Resp")
+			res.Multi = append(append([]string{}, resp.Header.Values("X-Verif-Multi")...), resp.Header.Values("Set-Cookie")...)
 			res.BodyTok, res.BodyOK = verifBodyToken(b)
 			res.BodyLen = len(b)
 			res.WantLen = -1
